@@ -708,6 +708,7 @@ package ro
 //@   ensures [delivers-the-head-error|C16] len(old(queue)) > 0 && old(queue)[0].B.Kind == 1 ==> trace(destination.ErrorWithContext(old(queue)[0].A, old(queue)[0].B.Err))
 //@   ensures [delivers-the-head-completion|C16] len(old(queue)) > 0 && old(queue)[0].B.Kind == 2 ==> trace(destination.CompleteWithContext(old(queue)[0].A))
 //@   ensures [pops-exactly-the-head|C16] len(old(queue)) > 0 ==> len(queue) == len(old(queue)) - 1
+//@   ensures [delivery-order-is-pop-order-the-delivery-lock-is-taken-before-the-queue-lock-is-released|C16,C13] len(old(queue)) > 0 ==> before(lock.muNext, unlock.muQueue) && heldat(muNext, destination.ANY) && heldat(muQueue, lock.muNext)
 
 //@ operator Timeout
 //@   props C16 C09
@@ -930,7 +931,7 @@ package ro
 //@   binds ctx obs
 //@   alias sub=obs.SubscribeWithContext()
 //@   track obs.*
-//@   ensures [returns-only-after-the-subscription-ended|C06] trace(obs.SubscribeWithContext(ctx, _), sub.Wait())
+//@   ensures [returns-only-after-the-subscription-ended|C06,C17] trace(obs.SubscribeWithContext(ctx, _), sub.Wait())
 
 //@ func ZipWith1$1$1$1
 //@   note onUpdate of Zip2 / ZipWith1: once every queue has a value the heads are popped and emitted as one tuple; the output then completes exactly when a finished source's queue is empty
